@@ -139,9 +139,10 @@ impl Ranks {
         let mut comp = vec![];
         fn walk_comp(nodes: &[Node], docs: &[MDoc], out: &mut Vec<(String, usize, CSrc, Vec<i64>)>) {
             for n in nodes {
-                if let Agg::Composite { sources, .. } = &n.agg {
+                if let Agg::Composite { sources, after, .. } = &n.agg {
                     for (j, s) in sources.iter().enumerate() {
-                        let set: std::collections::BTreeSet<i64> = docs.iter().flat_map(|d| csrc_vals(s, d, false)).collect();
+                        let mut set: std::collections::BTreeSet<i64> = docs.iter().flat_map(|d| csrc_vals(s, d, false)).collect();
+                        if let Some(a) = after { set.insert(a[j]); }
                         out.push((n.name.clone(), j, s.clone(), set.into_iter().collect()));
                     }
                 }
@@ -205,7 +206,8 @@ pub enum Agg {
     Range { field: Fd, ranges: Vec<(Option<i64>, Option<i64>, Option<String>)> },
     Filter { field: Fd, code: i64 },
     /// composite: every source is a terms source (`interval = None`) or a histogram source
-    Composite { sources: Vec<CSrc>, size: u32 },
+    /// `after`: the previous page's last key (source keys in model units), exclusive
+    Composite { sources: Vec<CSrc>, size: u32, #[serde(default)] after: Option<Vec<i64>> },
 }
 
 #[derive(Clone, PartialEq, Debug, Serialize, Deserialize)]
@@ -348,7 +350,7 @@ pub fn nodes_to_json(nodes: &[Node]) -> Value {
                 }).collect();
                 o.insert("range".into(), if n.opt.keyed { json!({"field": field.name(), "ranges": rs, "keyed": true}) } else { json!({"field": field.name(), "ranges": rs}) });
             }
-            Agg::Composite { sources, size } => {
+            Agg::Composite { sources, size, after } => {
                 let srcs: Vec<Value> = sources.iter().map(|c| {
                     let ord = if c.desc { "desc" } else { "asc" };
                     let inner = match c.interval {
@@ -357,7 +359,19 @@ pub fn nodes_to_json(nodes: &[Node]) -> Value {
                     };
                     json!({ c.name.clone(): inner })
                 }).collect();
-                o.insert("composite".into(), json!({"sources": srcs, "size": size}));
+                let mut body = json!({"sources": srcs, "size": size});
+                if let Some(a) = after {
+                    // after-key values are "<type>:<value>" strings
+                    let mut m = serde_json::Map::new();
+                    for (c, v) in sources.iter().zip(a) {
+                        let txt = if c.field.is_str() { format!("str:{}", universe(c.field)[*v as usize]) }
+                            else if c.interval.is_some() { format!("f64:{}", *v as f64 / c.field.scale() as f64) }
+                            else if c.field == Fd::U { format!("u64:{v}") } else { format!("i64:{v}") };
+                        m.insert(c.name.clone(), json!(txt));
+                    }
+                    body["after"] = Value::Object(m);
+                }
+                o.insert("composite".into(), body);
             }
             Agg::Filter { field, code } => {
                 let q = if field.is_str() { format!("{}:{}", field.name(), universe(*field)[*code as usize]) } else { format!("{}:{}", field.name(), code) };
@@ -417,10 +431,10 @@ pub fn nodes_to_lean(nodes: &[Node], counts_only: bool, ranks: &Ranks) -> String
                 format!("{s},{sub}")
             }
             Agg::Filter { field, code } => format!("F,{},{},{}", field.id(), code, sub),
-            Agg::Composite { sources, size } => {
+            Agg::Composite { sources, size, after } => {
                 let mut t = format!("C,{}", sources.len());
                 for (j, c) in sources.iter().enumerate() { t.push_str(&format!(",{},{},{}", ranks.comp_field(&n.name, j), ranks.comp_base(&n.name, j), if c.desc { "d" } else { "a" })); }
-                format!("{t},{size},_,{sub}")
+                format!("{t},{size},{},{sub}", after.as_ref().map(|a| ranks.comp_code(&n.name, sources, a).to_string()).unwrap_or("_".into()))
             }
         }
     }
@@ -571,7 +585,14 @@ fn gen_bucket(rng: &mut Rng, depth: usize) -> Agg {
                 let interval = if field.is_numeric() && rng.chance(1, 2) { Some(*rng.pick(&[5i64, 10, 25])) } else { None };
                 CSrc { name: format!("s{i}"), field, interval, desc: rng.chance(1, 3) }
             }).collect();
-            Agg::Composite { sources, size: *rng.pick(&[1u32, 2, 5, 50]) }
+            let sources: Vec<CSrc> = sources;
+            let after = if rng.chance(1, 3) {
+                Some(sources.iter().map(|c| {
+                    let v: i64 = match c.field { Fd::Cat => rng.below(5) as i64, Fd::Kw => kw_code(rng.usize_below(8)), Fd::U => rng.below(60) as i64, _ => rng.below(41) as i64 - 20 };
+                    match c.interval { Some(i) => v.div_euclid(i) * i, None => v }
+                }).collect())
+            } else { None };
+            Agg::Composite { sources, size: *rng.pick(&[1u32, 2, 5, 50]), after }
         }
         _ => {
             if rng.chance(1, 2) { Agg::Filter { field: Fd::Sel, code: rng.below(4) as i64 } }
